@@ -2,6 +2,7 @@ package main
 
 import (
 	"bufio"
+	"context"
 	"fmt"
 	"io"
 	"net"
@@ -9,6 +10,7 @@ import (
 	"reflect"
 	"strings"
 	"sync"
+	"sync/atomic"
 	"testing"
 	"time"
 
@@ -80,6 +82,37 @@ func (b *watchBackend) counts() (open, seen int) {
 	b.mu.Lock()
 	defer b.mu.Unlock()
 	return b.open, b.seen
+}
+
+// c19wShutdown calls the repository's shutdownGracefully. The call is made through reflection so
+// that a change of its parameter list (a context handed in, the order of the parameters) does not
+// stop the harness from compiling: each parameter is supplied by its type. ok is false when a
+// parameter is of a type the harness cannot supply; the part is then skipped and says so.
+var c19wSignatureUnknown atomic.Value
+
+func c19wShutdown(h *helios, timeout time.Duration) {
+	fn := reflect.ValueOf(shutdownGracefully)
+	var args []reflect.Value
+	for i := 0; i < fn.Type().NumIn(); i++ {
+		switch t := fn.Type().In(i); {
+		case t == reflect.TypeOf(h.srv):
+			args = append(args, reflect.ValueOf(h.srv))
+		case t == reflect.TypeOf(h.lb):
+			args = append(args, reflect.ValueOf(h.lb))
+		case t == reflect.TypeOf(timeout):
+			args = append(args, reflect.ValueOf(timeout))
+		case t == reflect.TypeOf((*context.Context)(nil)).Elem():
+			// a context of the caller's: as main() would make it when the signal arrives
+			ctx, cancel := context.WithTimeout(context.Background(), timeout)
+			defer cancel()
+			args = append(args, reflect.ValueOf(ctx))
+		default:
+			c19wSignatureUnknown.Store(fmt.Sprintf("parameter %d of shutdownGracefully has type %s", i, t))
+			h.stop()
+			return
+		}
+	}
+	fn.Call(args)
 }
 
 // c19wParked waits for the held request and tells which backend it is parked at.
@@ -157,7 +190,7 @@ func TestVerifC19W(t *testing.T) {
 						shutdownDone := make(chan struct{})
 						signal := func() {
 							go func() {
-								shutdownGracefully(h.srv, h.lb, 8*time.Second)
+								c19wShutdown(h, 8*time.Second)
 								close(shutdownDone)
 							}()
 						}
@@ -274,6 +307,9 @@ func TestVerifC19W(t *testing.T) {
 				}
 			}
 		}
+	}
+	if why, _ := c19wSignatureUnknown.Load().(string); why != "" {
+		r.Note("the wire part could not call the repository's shutdownGracefully (%s): it stopped the instance the way the function did when the harness was written (server, then balancer)", why)
 	}
 	r.AddScenario(vres.Scenario{Name: "backend-keep-alive-connections-closed-on-shutdown", Engine: "W", Evaluations: evals, Distinct: int64(outs.N()), Outcomes: outs.N(),
 		Rule:  "one evaluation = a real Helios instance in front of 1..3 watching backends, rounds of proxied requests over a kept-alive client connection, then the repository's shutdownGracefully, with the signal falling when nothing is in flight, when a request is parked at its backend (answered 150 ms later) when a client has sent half of its request header (the rest follows 150 ms later), or when nothing is in flight after a backend has been removed (idle, or with a request parked at it that is answered after the removal); the request in flight must be answered 200, shutdownGracefully must return, and every connection the backends accepted must be closed within 2 s of its return; distinct = (strategy, active checks, placement, all closed) classes",
